@@ -38,6 +38,7 @@ func TestVerif(t *testing.T) {
 	if tier == "" {
 		tier = "quick"
 	}
+	sim.LoadKnown(os.Getenv("VF_KNOWN"))
 	switch mode {
 	case "list":
 		for id, s := range sim.Scenarios {
@@ -82,6 +83,8 @@ func TestVerif(t *testing.T) {
 		} else {
 			fmt.Println(string(ob))
 		}
+	case "one":
+		sim.TraceRun(t, scn, envU("VF_SEED", 1), envU("VF_FROM", 0), tier)
 	case "hash":
 		// determinism self-test: print the log hash of runs [from,to)
 		sim.HashRuns(t, scn, envU("VF_SEED", 1), envU("VF_FROM", 0), envU("VF_TO", 1), tier)
